@@ -76,6 +76,7 @@ func (m *RWMutex) TryLock() bool {
 	return true
 }
 func (m *RWMutex) Unlock() {
+	vsched.Observe()
 	if !m.w && !vsched.Abort {
 		panic("vsync: unlock of unlocked rwmutex")
 	}
@@ -107,6 +108,7 @@ func (m *RWMutex) TryRLock() bool {
 	return true
 }
 func (m *RWMutex) RUnlock() {
+	vsched.Observe()
 	if m.r <= 0 && !vsched.Abort {
 		panic("vsync: runlock of unlocked rwmutex")
 	}
